@@ -36,6 +36,7 @@ pub fn check(case: &Case) -> CaseResult {
     r.class_if(err_after, "error_after_completed_frames");
     r.class_if(partial_dropped, "error_with_partial_frame");
     r.class_if(case.resps.len() >= 2, "several_responses");
+    r.class_if(case.resps.len() >= 30, "thirty_or_more_responses");
     r.class_if(enc.bytes.len() > 4096, "over_4k");
     r.class_if(enc.bytes.len() > 8192, "over_8k");
     r.class_if(enc.bytes.len() > 65_536, "over_64k");
@@ -99,7 +100,7 @@ pub fn check(case: &Case) -> CaseResult {
 fn strategy(tier: Tier) -> BoxedStrategy<Case> {
     let max_payload = tier.pick(20_000, 40_000);
     (
-        wire::responses_maybe_huge(6, max_payload, tier.pick(6_000, 20_000), 40),
+        prop_oneof![12 => wire::responses_maybe_huge(6, max_payload, tier.pick(6_000, 20_000), 40), 1 => wire::long_sequence()],
         seg_strategy(6000),
         (0..3usize).prop_map(|i| FLAVOURS[i]),
         prop_oneof![3 => Just(0u8), 1 => Just(1u8), 1 => Just(2u8)],
